@@ -330,6 +330,25 @@ def check_int(kind, par):
             if not space.same_bits(a, b):
                 out.append(("C17/%s/%s/integer-typed-data" % (kind, v), "%s %r: %r of %s data is %r, of the same values as float64 %r" % (
                     kind, par, v, np.dtype(dt).name, np.asarray(a).tolist(), np.asarray(b).tolist()), 0))
+        if kind in ("euler1d", "shallowwater"):
+            # integer-valued primitive states (whole numbers written without the dot), every subset of the arrays integer-typed
+            prim = [np.array([1.0, 2.0, 5.0, 1.0]), np.array([2.0, -1.0, 0.0, 3.0]), np.array([1.0, 3.0, 2.0, 4.0])][:model.neq]
+            with np.errstate(all="ignore"):
+                ref_q = model.prim2cons([x.copy() for x in prim])
+            for mask in itertools.product((False, True), repeat=model.neq):
+                if not any(mask):
+                    continue
+                n += 1
+                try:
+                    with np.errstate(all="ignore"):
+                        got_q = model.prim2cons([x.astype(dt) if m_ else x.copy() for x, m_ in zip(prim, mask)])
+                    if not space.same_bits(list(got_q), list(ref_q)):
+                        out.append(("C17/%s/prim2cons/integer-typed-data" % kind, "prim2cons of primitive arrays %r with %s typed as %s gives %r, as float64 %r" % (
+                            [x.tolist() for x in prim], ["rho/h", "u", "p"][:model.neq], [np.dtype(dt).name if m_ else "float64" for m_ in mask], [np.asarray(x).tolist() for x in got_q], [np.asarray(x).tolist() for x in ref_q]), 0))
+                        break
+                except Exception as e:
+                    out.append(("C17/%s/prim2cons/integer-typed-data/raises" % kind, "prim2cons raised %r for integer-typed primitive arrays" % (e,), 0))
+                    break
         try:
             with np.errstate(all="ignore"):
                 pi, pf = model.cons2prim([d.astype(dt) for d in data]), model.cons2prim([d.copy() for d in data])
